@@ -3,19 +3,19 @@
   One line per model; each model's entries live in Driver/Entries/<Model>.lean.
 -/
 import UnifexModel.Driver.Entry
-import UnifexModel.Driver.Entries.StopSource
-import UnifexModel.Driver.Entries.Calc
-import UnifexModel.Driver.Entries.Timer
-import UnifexModel.Driver.Entries.Scope
-import UnifexModel.Driver.Entries.Bulk
 import UnifexModel.Driver.Entries.AnyObj
-import UnifexModel.Driver.Entries.Ctx
-import UnifexModel.Driver.Entries.SpawnFuture
-import UnifexModel.Driver.Entries.Coro
-import UnifexModel.Driver.Entries.Mutex
-import UnifexModel.Driver.Entries.Cancel
 import UnifexModel.Driver.Entries.AsyncStack
+import UnifexModel.Driver.Entries.Bulk
+import UnifexModel.Driver.Entries.Calc
+import UnifexModel.Driver.Entries.Cancel
+import UnifexModel.Driver.Entries.Coro
+import UnifexModel.Driver.Entries.Ctx
 import UnifexModel.Driver.Entries.Event
+import UnifexModel.Driver.Entries.Mutex
+import UnifexModel.Driver.Entries.Scope
+import UnifexModel.Driver.Entries.SpawnFuture
+import UnifexModel.Driver.Entries.StopSource
+import UnifexModel.Driver.Entries.Timer
 
 namespace Unifex.Driver
 
